@@ -261,6 +261,11 @@ def check(ctx):
     _flags(ctx, repo, req, ans)
 
     # -- 6 published reference -----------------------------------------------------------------------
+    # a typed command survives serialise/decode only if decoding maps each (vendor, code) to the class that built it and
+    # nothing else (shared with C02/C10)
+    ctx.clause = "11-round-trip-dispatch"
+    from .c02 import _registry
+    _registry(ctx, repo)
     ctx.clause = "6-published-commands"
     _reference(ctx, repo, rows, folded)
 
@@ -318,6 +323,10 @@ def _load_table(ctx, repo):
                         return O
                     if t == ("cmp", "Is", VAL, None):
                         return N
+                    if isinstance(t, tuple) and len(t) == 4 and t[0] == "cmp" and t[1] == "Is" and VAL in (t[2], t[3]):
+                        o_ = t[3] if t[2] == VAL else t[2]
+                        if isinstance(o_, tuple) and len(o_) == 2 and o_[0] == "name" and o_[1] in sym.SENTINELS:
+                            return False      # an argument given by the caller is never the module's private sentinel object
                     if t == VAL and N:
                         return None
                     return None
